@@ -172,6 +172,19 @@ class Scripted:
         return np.full((int(N), self.D), float(v))
 
 
+class Counting:
+    """Wraps a model and records every invocation (parameter bytes, seed) in this process (n_jobs=1 only)."""
+
+    def __init__(self, fn):
+        self.fn = fn
+        self.__name__ = fn.__name__
+        self.calls = []
+
+    def __call__(self, theta, N, seed):
+        self.calls.append((np.array(theta, dtype=float, copy=True).tobytes(), int(seed), int(N)))
+        return self.fn(theta, N, seed)
+
+
 class InjectedFault(Exception):
     """The exception the fault injectors raise."""
 
